@@ -565,6 +565,18 @@ func scenarioC14(r *Run) {
 					}}, nil, 5*time.Second)
 				}
 			}
+			if c.Chance(1, 4, "partition-never-heals") {
+				// the other end is gone for good: every datagram is lost from now until the end of the run. Each
+				// end has to give the session up on its own and reclaim it without ever hearing from the peer again
+				// (not even an answer to its good-bye).
+				r.Info["partition_len"] = "for ever"
+				r.Count("fault_partition_for_ever")
+				r.DgramFilter = func(seq int) bool {
+					r.Net.DropDgram(seq)
+					return true
+				}
+				plen = 2 * time.Minute
+			}
 			outage(plen)
 			if plen < 2*time.Minute {
 				r.Count("fault_partition_healed")
